@@ -16,7 +16,7 @@ theorem getD_set (xs : List Nat) (i j x : Nat) :
   · subst h
     by_cases hl : i < xs.length
     · simp [hl]
-    · simp [hl, List.getElem?_eq_none (by omega : xs.length ≤ i)]
+    · simp [hl]
   · have : ¬ (j = i) := fun e => h e.symm
     simp [h, this]
 
@@ -181,7 +181,7 @@ theorem dropStep_inv (g : Graph) (hc : closedB g = true) (s s' : DropSt) (hI : D
             rw [hw] at h2'
             have hwv : w ≠ v := fun e => hvf (e ▸ hold)
             have hc' : (v :: rest).count w = rest.count w := by
-              simp [List.count_cons, hwv.symm]
+              simp [hwv.symm]
             omega
           · intro u hu huf
             exact h3' u hu (fun h => huf (List.mem_cons_of_mem _ h))
